@@ -256,7 +256,72 @@ def rand_json(rng, depth):
     return {rng.choice(keys): rand_json(rng, depth - 1) for _ in range(rng.randint(0, 4))}
 
 
+def max_json_depth(opener, closer, inner=""):
+    """deepest nesting json.loads accepts at this point of the call stack (binary search)"""
+    lo, hi = 1, 400000
+    while lo < hi:
+        m = (lo + hi + 1) // 2
+        try:
+            json.loads(opener * m + inner + closer * m)
+            lo = m
+        except RecursionError:
+            hi = m - 1
+    return lo
+
+
+def deployed_logging_pass(ctx, res):
+    """The manager runs with logging configured (logging.cfg: a console StreamHandler at DEBUG on the root logger),
+    so every request is also FORMATTED for the log.  The rest of the check runs with logging disabled; this pass
+    serves the part of the corpus whose handling depends on that - nestings around the deepest one the parser
+    accepts, where formatting the parsed request needs more recursion than parsing it - and the small hostile
+    lines, with a handler attached as the manager's configuration does (writing to a sink)."""
+    import io
+    import logging
+    rng = ctx["rng"]
+    sink = io.StringIO()
+    h = logging.StreamHandler(sink)
+    h.setLevel(logging.DEBUG)
+    h.setFormatter(logging.Formatter("[%(levelname)s:%(name)s] %(message)s"))
+    root = logging.getLogger()
+    old_level, old_disable = root.level, root.manager.disable
+    logging.disable(logging.NOTSET)
+    root.addHandler(h)
+    root.setLevel(logging.NOTSET)
+    n = 0
+    try:
+        lines = []
+        for opener, closer in ((b"[", b"]"), (b'{"a":', b"}")):
+            inner = b"1" if opener != b"[" else b""
+            top = max_json_depth(opener.decode(), closer.decode(), inner.decode())
+            span = 48 if ctx["tier"] == "quick" else 200
+            for d in range(max(1, top - span), top + 3):
+                lines.append(opener * d + inner + closer * d)
+                lines.append(b'{"command": "version", "x": ' + opener * (d - 1) + inner + closer * (d - 1) + b"}")
+                if ctx["tier"] != "quick" or d % 4 == 0:
+                    lines.append(b'{"command": "sign", "version": 5, "keyId": "m/44\'/0\'/0\'/0/0", "message": '
+                                 + opener * (d - 1) + inner + closer * (d - 1) + b"}")
+        lines += [ln for ln in hostile_corpus(rng) if len(ln) < 20000]
+        for ln in lines:
+            case = {"mode": "v5", "kind": "ledger", "lines": [ln], "device": abiding_device(rng), "meta": {}}
+            obs = stack.run_case(case)
+            n += 1
+            v = oracle(case, obs)
+            if v is not None:
+                v = dict(v, key=v["key"] + ":logging-on",
+                         what=v["what"] + " (logging configured as the manager's logging.cfg does)")
+                res["violations"].append(v)
+    finally:
+        root.removeHandler(h)
+        root.setLevel(old_level)
+        logging.disable(old_disable)
+    res["evaluations"] = res.get("evaluations", 0) + n
+    res.setdefault("distribution", {})["lines_served_with_logging_configured"] = n
+    res.setdefault("notes", []).append("deployed-logging pass: %d lines (nestings around the parser's limit, hostile "
+                                       "corpus) served with a DEBUG stream handler on the root logger" % n)
+
+
 def run(ctx):
     cases = gen_cases(ctx["rng"], ctx["tier"])
     res = servercases.run(ctx, cases, oracle, shard=100)
+    deployed_logging_pass(ctx, res)
     return res
